@@ -215,3 +215,17 @@ Theorem C13_loops_rs_match_model dbg w lg : 0 <= lg -> w = 2 ^ lg ->
   match Convert.U_from_uint dbg pb w n int with Ret r => Done r | Panic => Panicked end.
 Proof. exact (loops_C13_match_model dbg w lg). Qed.
 Print Assumptions C13_loops_rs_match_model.
+(* ---- tie to the source, bnum -> primitive (TryFrom): try_from_buint! of /repo/src/buint/convert.rs (`impl TryFrom<$BUint<N>> for
+   $int`, $int = every primitive integer type; pb = <$int>::BITS, ps = its signedness; the accumulator handled as its pb-bit
+   pattern, vocabulary Model/ImpConv.v) REGENERATED on every run (Generated/ConvGen.v, tools/rs2v_conv.py) computes exactly the
+   model's U_try_to_prim - both branches of `$Digit::BITS > <$int>::BITS`, the `loop { .. break }`, the `out < 0` test and the
+   scan of the remaining digits - for both values of the model's overflow-check flag, every power-of-two digit width and a
+   budget > N (one unit to reach the `break`). ---- *)
+From Bnum.Generated Require Import ConvGen.
+From Bnum.Proofs Require Import ConvGenTieC13.
+Theorem C13_conv_rs_matches_model dbg w lg n pb ps ds : 0 <= lg -> w = 2 ^ lg -> length ds = n ->
+  forall fuel, (S n <= fuel)%nat ->
+  ConvGen.try_from_buint w (Z.of_nat n) fuel pb ps ds =
+  match Convert.U_try_to_prim dbg pb ps w ds with Ret r => Done r | Panic => Panicked end.
+Proof. exact (conv_try_from_buint dbg w lg n pb ps ds). Qed.
+Print Assumptions C13_conv_rs_matches_model.
